@@ -8,8 +8,10 @@ import (
 	"bufio"
 	"bytes"
 	"encoding/base64"
+	"encoding/hex"
 	"encoding/json"
 	"fmt"
+	dkgPedersen "github.com/corestario/kyber/share/dkg/pedersen"
 	"math/rand"
 	"os"
 	"path/filepath"
@@ -20,6 +22,7 @@ import (
 
 	"github.com/lidofinance/dc4bc/airgapped"
 	"github.com/lidofinance/dc4bc/client/types"
+	"github.com/lidofinance/dc4bc/fsm/types/requests"
 )
 
 type airStats struct {
@@ -31,9 +34,12 @@ type airStats struct {
 	AirDkg                                                                                    airTraceStats
 	// SelfSeeded: machines that kept the seed they generated at their first start, compared with a set_seed machine (airselfseed.go)
 	SelfSeeded int
+	// Schnorr signatures under the responses to the deals, first answers and replayed ones; pairs with one nonce and different messages
+	ResponseSigs, NonceReuses int
 }
 
 type airRun struct {
+	nonces map[string]nonceUse
 	// air: the abstract trace of key-generation operations for the Lean model of the handlers (airdkg.go)
 	air  *airTrace
 	st   *airStats
@@ -839,7 +845,11 @@ func (a *airRun) restartScenario(dir string, victim *vnode, mnemonic, round stri
 				continue
 			}
 		}
-		got := resultDigest(tryOperation(m, op, true))
+		firstOut := tryOperation(m, op, true)
+		got := resultDigest(firstOut)
+		if firstOut.result != nil {
+			a.noteResponseSigs(op, firstOut.result, "first answer")
+		}
 		if !op.IsSigningState() {
 			shadow = append(shadow, op.ID)
 		}
@@ -876,6 +886,9 @@ func (a *airRun) restartScenario(dir string, victim *vnode, mnemonic, round stri
 					got = resultDigest(airOutcome{kind: k, result: &res})
 				}
 				a.st.ReplayedResults++
+				if json.Unmarshal(rb, &res) == nil {
+					a.noteResponseSigs(lo, &res, fmt.Sprintf("the answer republished by the replay that followed operation %d", i))
+				}
 				if j < len(ref) && !digestsEqual(got, ref[j]) {
 					a.mon(fmt.Sprintf("C12 carries_on_identically (%s): after the replay that followed operation %d the republished result of operation %d (%s) is %s, a machine that never stopped gives %s", tag, i, j, lo.Type, truncate(got, 160), truncate(ref[j], 160)))
 					return
@@ -986,3 +999,43 @@ func (a *airRun) airdkgRestarts(dir string, c *cluster, victim *vnode, mnemonic,
 		}
 	}
 }
+
+// noteResponseSigs: the Schnorr signatures a machine puts under its responses to the deals (kyber: R || s, the nonce
+// commitment R first). The same machine answering the same deals operation again - the replay after a restart republishes
+// its result - must not sign DIFFERENT messages with the SAME nonce: two signatures (R, s1), (R, s2) over known messages
+// give the long-term private key away (x = (s1 - s2) / (h1 - h2)). C04: the private key never leaves the machine.
+func (a *airRun) noteResponseSigs(op types.Operation, res *types.Operation, what string) {
+	if string(op.Type) != "state_dkg_responses_await_confirmations" || len(res.ResultMsgs) != 1 {
+		return
+	}
+	var req requests.DKGProposalResponseConfirmationRequest
+	var rs []*dkgPedersen.Response
+	if json.Unmarshal(res.ResultMsgs[0].Data, &req) != nil || json.Unmarshal(req.Response, &rs) != nil {
+		return
+	}
+	if a.nonces == nil {
+		a.nonces = map[string]nonceUse{}
+	}
+	for _, r := range rs {
+		if r == nil || r.Response == nil || len(r.Response.Signature) < 80 {
+			continue
+		}
+		sig := r.Response.Signature
+		rPart, sPart := hex.EncodeToString(sig[:len(sig)-32]), hex.EncodeToString(sig[len(sig)-32:])
+		signed := fmt.Sprintf("dealer %d/verifier %d/%v/%x", r.Index, r.Response.Index, r.Response.Status, r.Response.SessionID)
+		key := op.DKGIdentifier + "/" + fmt.Sprint(req.ParticipantId) + "/" + rPart
+		a.st.ResponseSigs++
+		if prev, ok := a.nonces[key]; ok {
+			if prev.signed != signed || prev.s != sPart {
+				if prev.signed != signed && a.st.NonceReuses < 3 {
+					a.mon(fmt.Sprintf("C04 nonce_reuse: participant %d of round %.8s… signed two different responses with one Schnorr nonce (R = %.16s…): %s in %s and %s in %s - the two result files give its long-term private key away", req.ParticipantId, op.DKGIdentifier, rPart, prev.signed[:40], prev.where, signed[:40], what))
+				}
+				a.st.NonceReuses++
+			}
+			continue
+		}
+		a.nonces[key] = nonceUse{signed: signed, s: sPart, where: what}
+	}
+}
+
+type nonceUse struct{ signed, s, where string }
